@@ -491,6 +491,8 @@ class Scope:
                     if ext:
                         return Callee("ext", f"{ext[0]}.{meth}", recv=recv, recv_ty=rt, recv_path=path)
                     return Callee("unknown", f"{rt.head}.{meth}", recv=recv, recv_ty=rt, recv_path=path)
+                if rt.head == "property" and meth in ("fget", "fset", "fdel"):
+                    return Callee("user", f"{path or '?'}.{meth}", recv=recv, recv_ty=rt, recv_path=path)
                 return Callee("ext", f"{rt.head}.{meth}", recv=recv, recv_ty=rt, recv_path=path)
             # untyped receiver
             if isinstance(recv, ast.Name) and self._is_user_callable_name(recv.id):
